@@ -231,16 +231,13 @@ def keepOld (cfg : Cfg) (newKeys : List Val) : List Val → List Val → List Va
   | _, _ => ([], [])
 
 /-- Step 3 of `edn_read_metadata` -/
-def attachMeta (cfg : Cfg) (m form : Val) (newKs newVs : List Val) : Val :=
+def attachMeta (cfg : Cfg) (_m form : Val) (newKs newVs : List Val) : Val :=
   match form.md with
   | some (.map h md ks vs) =>
     let (oks, ovs) := keepOld cfg newKs ks vs
     form.setMd (some (.map h md (newKs ++ oks) (newVs ++ ovs)))
   | _ =>
-    let h : Hdr := match m with
-      | .map mh _ _ _ => (mkHdr (mh.s) (mh.e))
-      | _ => synthHdr
-    form.setMd (some (.map h none newKs newVs))
+    form.setMd (some (.map synthHdr none newKs newVs))
 
 /-! ## The recursive reader -/
 
